@@ -743,6 +743,16 @@ func packagePrepareWalkFn(root string, ignoreRules *ignorefiles.Ruleset) filepat
 			return fmt.Errorf("module package path %q is symlink traversing out of the package root", relPath)
 		}
 
+		// A symlink with an absolute target can only lead into the package
+		// by naming the directory the package is in right now, which is a
+		// temporary one: the link would lead nowhere once the package
+		// directory has been moved to its final place in the bundle.
+		if info.Mode()&os.ModeSymlink != 0 {
+			if target, err := os.Readlink(absPath); err == nil && filepath.IsAbs(target) {
+				return fmt.Errorf("module package path %q is a symlink with an absolute target", relPath)
+			}
+		}
+
 		// The real referent must also be either a regular file or a directory.
 		// (Not, for example, a Unix device node or socket or other such oddities.)
 		lInfo, err := os.Lstat(realPath)
